@@ -107,7 +107,8 @@ struct Engine {
     // ---------------- bodies ----------------
     static const std::vector<u16>& Bodies() {
         // inc a0 | inc a1 | shl a0 | add #1,a0 | add [r0]+,a0 | mov a0l,[r1]+ | modr [r5]+ | add #0xFF,a1 | neg a0 | banke cfgi,r1 | not a0 | mov r2,[r3]+
-        static const std::vector<u16> b = {0x67D0, 0x77D0, 0x6720, 0xC601, 0x8688, 0x1B49, 0x008D, 0xC7FF, 0x6790, 0x4B85, 0x6780, 0x184B};
+        // | mov #0x0E,icr (a write of the word that also shows the in-loop bit, with that bit clear: the loop goes on)
+        static const std::vector<u16> b = {0x67D0, 0x77D0, 0x6720, 0xC601, 0x8688, 0x1B49, 0x008D, 0xC7FF, 0x6790, 0x4B85, 0x6780, 0x184B, 0x4F8E};
         return b;
     }
 
@@ -553,7 +554,7 @@ inline void Run(const Args& args, Result& res) {
             res);
     res.rule = "every loop program of the generated family is executed on the real interpreter and compared with its unrolled straight-line "
                "form executed on the same interpreter from the same state (4 base states incl. one in program page 2): rep with counts 0..8,255 (immediate), 0,1,3,256"
-               "(,65535) (register, r6) x 12 one-word bodies, the count taken from every Register operand (accumulator halves of accumulators outside "
+               "(,65535) (register, r6) x 13 one-word bodies, the count taken from every Register operand (accumulator halves of accumulators outside "
                "the 32-bit range included); bkrep with blocks of 1-3 instructions (+ a two-word last instruction) x counts 0..3, "
                "register count 255; nesting depth 2-4 with every count vector in {0,1,2}^depth and order-sensitive bodies; break; the "
                "program-visible counters (mov repc / mov lc inside the loop); bkrepsto;bkreprst at depth 0-4 through [sp] and [arrn]. "
